@@ -313,7 +313,7 @@ def split_path(s):
 
 class Fn:
     __slots__ = ('raw', 'p', 'short', 'name', 'kind', 'pub', 'self_ty', 'self_adt', 'trait', 'crate', 'body',
-                 'promoted', 'sp', 'parent', 'root', '_cfg', '_du', 'blocks')
+                 'promoted', 'sp', 'parent', 'root', '_cfg', '_du', 'blocks', 'inlined_from', 'extra_children', 'ret_locals')
 
     def __init__(self, raw, crate):
         self.raw = raw
@@ -334,6 +334,9 @@ class Fn:
         self.root = raw.get('root')
         self._cfg = None
         self._du = None
+        self.ret_locals = frozenset()
+        self.inlined_from = None
+        self.extra_children = None
 
     def __repr__(self):
         return 'Fn(%s)' % self.short
@@ -417,6 +420,44 @@ class Program:
             raise KeyError('ambiguous fn %s: %s' % (short_name, [f.p for f in c]))
         return c[0]
 
+    # ---- normalisation: "extract method" refactorings are undone before any rule looks at the program
+    def normalise(self, known):
+        """Splice every NEW helper (a function that is not in `known`, not pub, not a closure / trait method, called from
+        exactly one place in its own crate) into its only caller, repeatedly, and drop it from the function table.  The
+        rules then see the program as if the helper had never been extracted.  With no new helper this is the identity."""
+        if known is None or getattr(self, 'normalised', False):
+            return
+        self.normalised = True
+        from .inline import inlined, is_new_helper
+        helpers = {f.p: f for f in self.fns.values() if is_new_helper(self, f, known)}
+        self.inlined_helpers = sorted(short(p_) for p_ in helpers)
+        if not helpers:
+            return
+        self.all_fns = dict(self.fns)
+        home = {}
+        new_fns = {}
+        for p_, f in self.fns.items():
+            if p_ in helpers:
+                continue
+            nf = inlined(self, f, helpers)
+            new_fns[p_] = nf
+            for h in (nf.inlined_from or []):
+                home[h] = p_
+        # closures of helpers move to the unit that absorbed the helper
+        self.helper_home = home
+        self.fns = new_fns
+        self.by_short = {}
+        for f in self.fns.values():
+            self.by_short.setdefault(f.short, []).append(f)
+        self.children = {}
+        for f in self.fns.values():
+            if f.parent:
+                par = f.parent
+                while par in home:
+                    par = home[par]
+                self.children.setdefault(par, []).append(f)
+        self._cidx = None
+
     def fns_named(self, short_name):
         return list(self.by_short.get(short_name, []))
 
@@ -457,8 +498,14 @@ class Program:
 
     def root_fn(self, fn):
         """The named function a closure belongs to (itself for named functions)."""
-        while fn.parent and fn.parent in self.fns:
-            fn = self.fns[fn.parent]
+        home = getattr(self, 'helper_home', None) or {}
+        while fn.parent:
+            par = fn.parent
+            while par in home:
+                par = home[par]
+            if par not in self.fns:
+                break
+            fn = self.fns[par]
         return fn
 
     def impls_of_trait(self, trait_suffix):
@@ -487,6 +534,27 @@ def is_dyn_call(t):
 _program_cache = {}
 
 
+KNOWN_FUNCTIONS = os.path.join(os.path.dirname(os.path.dirname(os.path.abspath(__file__))), 'known_functions.txt')
+
+
+def anchor_names():
+    """Functions that are never spliced into their caller: every function that existed when the rules were confirmed
+    (engine/known_functions.txt, regenerated with `./check --known-functions`).  Only a function that is NEW relative to
+    that list, private and called from exactly one place - the product of an "extract method" refactoring - is
+    inlined, so on the tree the rules were written for the analysed bodies are exactly rustc's."""
+    try:
+        return {l.strip() for l in open(KNOWN_FUNCTIONS) if l.strip()}
+    except OSError:
+        return None
+
+
+def write_known_functions(prog):
+    names = sorted({f.short for f in prog.fns.values() if not f.parent})
+    with open(KNOWN_FUNCTIONS, 'w') as fh:
+        fh.write('\n'.join(names) + '\n')
+    return len(names)
+
+
 def load_program(repo=REPO):
     d, key, nfiles = ensure_facts(repo)
     if key not in _program_cache:
@@ -495,4 +563,5 @@ def load_program(repo=REPO):
     prog.key = key
     prog.nfiles = nfiles
     prog.facts_dir = d
+    prog.normalise(anchor_names())
     return prog
